@@ -6,7 +6,7 @@ import ast
 
 from ..interp import cval, has_const
 from ..source import norm_text
-from .geo import all_geos, geo_text, under, uniq_events
+from .geo import KIND_ERRORS, all_geos, geo_text, under, uniq_events
 
 TRAJ = 'gemdat.trajectory.Trajectory'
 
@@ -80,6 +80,9 @@ def check(ctx):
                        f'test is never true, no reference atom is selected and the drift is the mean of an empty selection (NaN)')
             else:
                 ctx.ob('R1', e['where'], norm_text(e['node']) + f' [{which}]', True, f'{ik} looked up among {ck}s')
+    for which, it in runs.items():
+        for e in uniq_events(it, {'isin_set'}, in_df):
+            ctx.ob('R1', e['where'], norm_text(e['node']) + f' [{which}]', False, KIND_ERRORS['isin_set'] + ': the reference selection is empty and the drift is the mean of nothing (NaN)')
     # a `str | Collection[str]` parameter may be one symbol: iterating it (set operations, set(x), for ... in x) splits 'Li' into 'L', 'i'
     for fi_ in (fd, ff, ctx.fn(f'{TRAJ}.apply_drift_correction')):
         cfg = ctx.cfg(fi_.qualname)
